@@ -151,12 +151,19 @@ class PythonASTOptimizer(ast.NodeTransformer):
 
     @contextmanager
     def _new_global_context(self):
-        """Context manager which sets a new Python `global` context."""
-        self._global_ctx.append(set())
+        """Context manager which sets a new Python `global` context and yields the set
+        of names declared `global` within it."""
+        ctx: set[str] = set()
+        self._global_ctx.append(ctx)
         try:
-            yield
+            yield ctx
         finally:
             self._global_ctx.pop()
+
+    @property
+    def _is_function_context(self) -> bool:
+        """Return True if the current `global` context belongs to a function."""
+        return len(self._global_ctx) > 1
 
     @property
     def _global_context(self) -> set[str]:
@@ -206,21 +213,44 @@ class PythonASTOptimizer(ast.NodeTransformer):
             )
         return node
 
+    def _function_body(
+        self, node: ast.FunctionDef | ast.AsyncFunctionDef
+    ) -> list[ast.stmt]:
+        """Visit the body of a function definition in a `global` context of its own and
+        return the new body.
+
+        Python requires a `global` declaration to precede every use of the name in the
+        function, wherever in the function the name is assigned. The declarations are
+        collected from the function body (`visit_Global`) and emitted once, as its first
+        statement."""
+        _prune_dead_code(node, "body")
+        with self._new_global_context() as global_names:
+            new_node = self.generic_visit(node)
+        assert isinstance(new_node, (ast.FunctionDef, ast.AsyncFunctionDef))
+        body = _filter_dead_code(new_node.body)
+        if global_names:
+            body.insert(
+                0, ast.copy_location(ast.Global(names=sorted(global_names)), new_node)
+            )
+        return body
+
+    def visit_AsyncFunctionDef(self, node: ast.AsyncFunctionDef) -> ast.AST | None:
+        """Eliminate dead code from async function bodies."""
+        node.body = self._function_body(node)
+        return node
+
     def visit_FunctionDef(self, node: ast.FunctionDef) -> ast.AST | None:
         """Eliminate dead code from function bodies."""
-        _prune_dead_code(node, "body")
-        with self._new_global_context():
-            new_node = self.generic_visit(node)
-        assert isinstance(new_node, ast.FunctionDef)
+        body = self._function_body(node)
         return ast.copy_location(
             ast_FunctionDef(
-                name=new_node.name,
-                args=new_node.args,
-                body=_filter_dead_code(new_node.body),
-                decorator_list=new_node.decorator_list,
-                returns=new_node.returns,
+                name=node.name,
+                args=node.args,
+                body=body,
+                decorator_list=node.decorator_list,
+                returns=node.returns,
             ),
-            new_node,
+            node,
         )
 
     def visit_Global(self, node: ast.Global) -> ast.Global | None:
@@ -229,9 +259,14 @@ class PythonASTOptimizer(ast.NodeTransformer):
         Python `global` statements may only refer to a name prior to its declaration.
         Global contexts track names in prior `global` declarations and eliminate
         redundant names in `global` declarations. If all of the names in the current
-        `global` statement are redundant, the entire node will be omitted."""
+        `global` statement are redundant, the entire node will be omitted.
+
+        Inside of a function the statement is always omitted: the names are declared
+        once at the top of the function body instead (see `_function_body`)."""
         new_names = set(node.names) - self._global_context
         self._global_context.update(new_names)
+        if self._is_function_context:
+            return None
         return (
             ast.copy_location(ast.Global(names=list(new_names)), node)
             if new_names
